@@ -536,7 +536,7 @@ func runKernelCfg(tag string, cfg kernelCfg) (out kernelOutcome) {
 	go func() { b := make([]byte, 8); stdout.Read(b); close(ready) }()
 	select {
 	case <-ready:
-	case <-time.After(10 * time.Second):
+	case <-time.After(90 * time.Second):
 		out.inconclusive = "the flood did not start"
 		return
 	}
